@@ -78,9 +78,12 @@ fn topo(nh: usize, tcpcls: u64) -> Rc<Topo> {
 }
 
 /// What a rule closure can see of a packet: identity key, tag, class, addressed receiving
-/// socket (0 = none tracked), loopback destination.
+/// socket (0 = none tracked), host-local destination (loopback or own address of the sender).
 fn classify(p: &Packet, t: &Topo) -> (String, u64, u64, u64, bool) {
-    let lo = p.dst.is_loopback();
+    // host-local traffic: a loopback destination, or one of the sending host's own addresses
+    // (such a packet never leaves its host; `Kernel::egress` folds it back inline)
+    let lo = p.dst.is_loopback()
+        || matches!((t.ip2h.get(&p.src), t.ip2h.get(&p.dst)), (Some(a), Some(b)) if a == b);
     match &p.payload {
         Transport::Udp(d) => {
             let b = &d.payload;
